@@ -184,3 +184,21 @@ class ConstantMulLinearOperator(LinearOperator):
             return RootLinearOperator(ConstantMulLinearOperator(base_root, self._constant**0.5))
 
         return super().root_decomposition(method=method)
+
+    @cached(name="root_inv_decomposition")
+    def root_inv_decomposition(
+        self: Float[LinearOperator, "*batch N N"],
+        initial_vectors: Optional[torch.Tensor] = None,
+        test_vectors: Optional[torch.Tensor] = None,
+        method: Optional[str] = None,
+    ) -> Union[Float[LinearOperator, "... N N"], Float[Tensor, "... N N"]]:
+        # Mirror root_decomposition: scale the inverse root of the base operator, so that the cached root and inverse
+        # root of this operator come from the same factorization of the base and stay mutual inverses
+        # (add_low_rank / cat_rows combine the two).
+        if torch.all(self._constant > 0):
+            base_root = self.base_linear_op.root_inv_decomposition(
+                initial_vectors=initial_vectors, test_vectors=test_vectors, method=method
+            ).root
+            return RootLinearOperator(ConstantMulLinearOperator(base_root, self._constant**-0.5))
+
+        return super().root_inv_decomposition(initial_vectors=initial_vectors, test_vectors=test_vectors, method=method)
